@@ -235,6 +235,10 @@ def run(analysis: Analysis, tier: str) -> RuleResult:
     c03.header_rules(analysis, _L)
     # a withheld reply is still "the reply the protocol prescribes": nothing may silently drop or reorder it
     c08.queue_access(analysis, res, "C05-R5")
+    # "everything else with silence": the echo the presentation handler returns is discarded by the router (C07-R2)
+    from . import c07
+
+    c07.presentation_dropped(analysis, res, "C05-R1")
     need = {("req", None), ("set", None), ("internal", "I_CONFIG"), ("internal", "I_TIME"), ("internal", "I_ID_REQUEST"), ("internal", "I_GATEWAY_READY"), ("stream", "ST_FIRMWARE_CONFIG_REQUEST"), ("stream", "ST_FIRMWARE_REQUEST")}
     missing = need - replying
     for t, sub in sorted(missing, key=str):
